@@ -181,6 +181,8 @@ def run(ctx):
     from .c11 import slice_rule, varint_rule, fixedbuf_rule
     from .c02 import freezemap_rule
     freezemap_rule(ctx)
+    from .c07 import resolution_rules
+    resolution_rules(ctx)
     slice_rule(ctx)
     varint_rule(ctx)
     fixedbuf_rule(ctx)
@@ -610,6 +612,22 @@ def blocks_rule(ctx):
            'byte size read on the ignoring path: %s' % [x[2] for x in r_ign])
     ctx.ob('BLOCKS', 'read_block_len/size-read-when-not-ignoring', len(r_keep) == 1 and r_keep[0][2][1] in ('i64', 'u64'), short_loc(b.span),
            'byte size read (and dropped) on the non-ignoring path: %s' % [x[2] for x in r_keep])
+    # the size is a hint for skipping only: when the block is going to be read, the value is dropped - nothing is decided
+    # on it (items may be zero bytes long: array<null>, empty records, fixed(0))
+    judged = []
+    for r_ in r_keep:
+        for sbb in sorted(b.live_blocks()):
+            if b.term(sbb)['k'] != 'switch':
+                continue
+            si = b.switch_info(sbb)
+            if si.get('kind') == 'enum':
+                continue
+            from .c20gen import slice_back
+            sl = slice_back(b, si['op'])
+            if any(c[2] is r_[1] for c in sl.calls):
+                judged.append(sbb)
+    ctx.ob('BLOCKS', 'read_block_len/size-hint-not-judged', not judged, short_loc(b.span),
+           'comparisons on the byte size of a block that is going to be read: %d (the size is only a skipping hint)' % len(judged))
     # skip uses the size just read, converted with try_into
     sk = [x for x in skips if x[0] in ign_reg]
     ok = len(sk) == 1 and len(r_ign) == 1
